@@ -421,4 +421,286 @@ theorem lex_crlf_run_vis (cs : CharSpec) (hcs : CrlfSpec cs) (s : List Char) (hs
   rw [List.flatMap_def, List.flatMap_def, List.map_take, List.map_take, List.map_drop, List.map_drop,
     lex_crlf_vis cs hcs s hs]
 
+/-! ## spelling of tokens: what the lexer produces, and reads back -/
+
+/-- the text a printer writes for a token list -/
+def render (ts : List Tok) : List Char := ts.flatMap (·.text)
+
+/-- `c` is none of the characters `advance_token` handles before the Unicode classes: backslash,
+    `>`, `-`, LF, an ASCII digit, a character of the single character table; and with `look` the
+    character after it, it neither opens a block comment (`[-`) nor is the CR of a CRLF -/
+def fallsThrough (c : Char) (look : Option Char) : Bool :=
+  c != '\\' && c != '>' && c != '-' && c != '\n' && !isAsciiDigit c && (singleKind c).isNone &&
+  !(c == '[' && look == some '-') && !(c == '\r' && look == some '\n')
+
+/-- `text` is the spelling of a token of kind `k` when the next character of the input is `next`
+    (`none`: end of input): exactly the conditions under which `advance_token` produces that
+    token with that text. -/
+def spellOK (cs : CharSpec) (k : TK) (text : List Char) (next : Option Char) : Bool :=
+  match text with
+  | [] => false
+  | c :: r =>
+    match k with
+    | .escaped => c == '\\' && (r.length == 1 || (r.isEmpty && next.isNone))
+    | .metaStart => c == '>' && r == ['>']
+    | .textStep => c == '>' && r.isEmpty && next != some '>'
+    | .minus => c == '-' && r.isEmpty && next != some '-'
+    | .lineComment =>
+      c == '-' && r.head? == some '-' && r.all (· != '\n') && (next.isNone || next == some '\n')
+    | .blockComment =>
+      c == '[' && r.head? == some '-' && blockScan r.tail == r.tail.length &&
+        (['-', ']'].isSuffixOf r.tail || next.isNone)
+    | .newline => (c == '\n' && r.isEmpty) || (c == '\r' && r == ['\n'])
+    | .int => isAsciiDigit c && r.all isAsciiDigit && (c != '0' || r.isEmpty) && !(next.any isAsciiDigit)
+    | .zeroInt => c == '0' && !r.isEmpty && r.all isAsciiDigit && !(next.any isAsciiDigit)
+    | .ws => fallsThrough c (r ++ next.toList).head? && cs.ws c && r.all cs.ws && !(next.any cs.ws)
+    | .punct => fallsThrough c (r ++ next.toList).head? && !cs.ws c && cs.punct c && r.isEmpty
+    | .word =>
+      fallsThrough c (r ++ next.toList).head? && !cs.ws c && !cs.punct c && r.all cs.wordChar &&
+        !(next.any cs.wordChar)
+    | k => r.isEmpty && singleKind c == some k
+
+/-- every token is spelled as the lexer spells it, given the first character of what follows -/
+def wellSpelled (cs : CharSpec) : List Tok → Bool
+  | [] => true
+  | t :: ts => spellOK cs t.kind t.text (render ts).head? && wellSpelled cs ts
+
+/-- the token lists a printer may emit: each token's text is what the lexer produces for its
+    kind when followed by the next token's first character (decidable) -/
+abbrev WellSpelled (cs : CharSpec) (ts : List Tok) : Prop := wellSpelled cs ts = true
+
+theorem lexlaws_takeWhile_append (p : Char → Bool) (r more : List Char) (h1 : r.all p = true)
+    (h2 : more.head?.any p = false) : ((r ++ more).takeWhile p).length = r.length := by
+  induction r with
+  | nil =>
+    cases more with
+    | nil => simp
+    | cons m ms => simp at h2; simp [h2]
+  | cons a r ih =>
+    simp only [List.all_cons, Bool.and_eq_true] at h1
+    simp [h1.1, ih h1.2]
+
+theorem singleTable_chars : ∀ q ∈ singleTable, q.1 ≠ '\\' ∧ q.1 ≠ '>' ∧ q.1 ≠ '-' ∧ q.1 ≠ '[' ∧ q.1 ≠ '\n' ∧
+    q.1 ≠ '\r' ∧ isAsciiDigit q.1 = false := by decide
+
+theorem singleKind_some {c : Char} {k : TK} (h : singleKind c = some k) :
+    c ≠ '\\' ∧ c ≠ '>' ∧ c ≠ '-' ∧ c ≠ '[' ∧ c ≠ '\n' ∧ c ≠ '\r' ∧ isAsciiDigit c = false := by
+  unfold singleKind at h
+  cases hf : singleTable.find? (fun p => p.1 == c) with
+  | none => rw [hf] at h; simp at h
+  | some q =>
+    have hm := List.mem_of_find?_eq_some hf
+    have hq := List.find?_some hf
+    have hc : q.1 = c := by simpa using hq
+    rw [← hc]
+    exact singleTable_chars q hm
+
+theorem isAsciiDigit_ne {c : Char} (h : isAsciiDigit c = true) :
+    c ≠ '\\' ∧ c ≠ '>' ∧ c ≠ '-' ∧ c ≠ '[' ∧ c ≠ '\n' ∧ c ≠ '\r' := by
+  refine ⟨?_, ?_, ?_, ?_, ?_, ?_⟩ <;> (intro hc; subst hc; revert h; decide)
+
+theorem lexOne_single (cs : CharSpec) {c : Char} {k : TK} (rest : List Char) (h : singleKind c = some k) :
+    lexOne cs c rest = (k, 0) := by
+  obtain ⟨h1, h2, h3, h4, h5, h6, h7⟩ := singleKind_some h
+  simp [lexOne, h1, h2, h3, h4, h5, h6, h7, h]
+
+theorem lexOne_digit (cs : CharSpec) {c : Char} (rest : List Char) (h : isAsciiDigit c = true) :
+    lexOne cs c rest =
+      (if c = '0' ∧ (rest.takeWhile isAsciiDigit).length > 0 then .zeroInt else .int,
+        (rest.takeWhile isAsciiDigit).length) := by
+  obtain ⟨h1, h2, h3, h4, h5, h6⟩ := isAsciiDigit_ne h
+  simp [lexOne, h1, h2, h3, h4, h5, h6, h]
+
+theorem lexOne_fall (cs : CharSpec) {c : Char} (rest : List Char) (h : fallsThrough c rest.head? = true) :
+    lexOne cs c rest =
+      if cs.ws c then (.ws, (rest.takeWhile cs.ws).length)
+      else if cs.punct c then (.punct, 0)
+      else (.word, (rest.takeWhile cs.wordChar).length) := by
+  simp only [fallsThrough, Bool.and_eq_true, bne_iff_ne, ne_eq, Bool.not_eq_true', Option.isNone_iff_eq_none,
+    Bool.and_eq_false_imp, beq_iff_eq] at h
+  obtain ⟨⟨⟨⟨⟨⟨⟨h1, h2⟩, h3⟩, h4⟩, h5⟩, h6⟩, h7⟩, h8⟩ := h
+  have h7' : ¬ (c = '[' ∧ rest.head? = some '-') := fun hh => by have := h7 hh.1; simp [hh.2] at this
+  have h8' : ¬ (c = '\r' ∧ rest.head? = some '\n') := fun hh => by have := h8 hh.1; simp [hh.2] at this
+  simp [lexOne, h1, h2, h3, h4, h5, h6, h7', h8']
+
+theorem lexlaws_head_append (r more : List Char) : (r ++ more.head?.toList).head? = (r ++ more).head? := by
+  cases r with
+  | nil => cases more <;> simp
+  | cons a r => simp
+
+theorem blockScan_append (r more : List Char) (h1 : blockScan r = r.length)
+    (h2 : ['-', ']'] <:+ r ∨ more = []) : blockScan (r ++ more) = r.length := by
+  induction r with
+  | nil =>
+    rcases h2 with h2 | h2
+    · simp at h2
+    · simp [h2, blockScan]
+  | cons c t ih =>
+    by_cases hm : c = '-' ∧ t.head? = some ']'
+    · obtain ⟨rfl, hh⟩ := hm
+      cases t with
+      | nil => simp at hh
+      | cons d u =>
+        simp only [List.head?_cons, Option.some.injEq] at hh
+        subst hh
+        rw [blockScan_close] at h1
+        simp only [List.length_cons] at h1
+        have : u = [] := List.eq_nil_of_length_eq_zero (by omega)
+        subst this
+        simp [blockScan_close]
+    · rw [blockScan_step c t hm] at h1
+      simp only [List.length_cons, Nat.add_right_cancel_iff] at h1
+      have h2' : ['-', ']'] <:+ t ∨ more = [] := by
+        rcases h2 with h2 | h2
+        · rw [List.suffix_cons_iff] at h2
+          rcases h2 with h2 | h2
+          · simp only [List.cons.injEq] at h2
+            exact absurd ⟨h2.1.symm, by rw [← h2.2]; rfl⟩ hm
+          · exact Or.inl h2
+        · exact Or.inr h2
+      have hm' : ¬ (c = '-' ∧ (t ++ more).head? = some ']') := by
+        intro hh
+        cases t with
+        | nil =>
+          rcases h2' with h | h
+          · simp at h
+          · subst h; simp at hh
+        | cons d u => exact hm ⟨hh.1, by simpa using hh.2⟩
+      rw [List.cons_append, blockScan_step c _ hm', ih h1 h2']
+      simp
+
+/-- a token spelled as `spellOK` demands is what the lexer reads at the start of `text ++ more` -/
+theorem lexOne_of_spellOK (cs : CharSpec) (k : TK) (c : Char) (r more : List Char)
+    (h : spellOK cs k (c :: r) more.head? = true) : lexOne cs c (r ++ more) = (k, r.length) := by
+  have hfall : ∀ (hf : fallsThrough c (r ++ more.head?.toList).head? = true), _ :=
+    fun hf => lexOne_fall cs (r ++ more) (by rw [← lexlaws_head_append]; exact hf)
+  cases k
+  case escaped =>
+    simp only [spellOK, Bool.and_eq_true, beq_iff_eq, Bool.or_eq_true, List.isEmpty_iff,
+      Option.isNone_iff_eq_none] at h
+    obtain ⟨rfl, h | ⟨rfl, h⟩⟩ := h
+    · cases r with
+      | nil => simp at h
+      | cons a r => simp [lexOne]; simpa using h
+    · cases more <;> simp_all [lexOne]
+  case metaStart =>
+    simp only [spellOK, Bool.and_eq_true, beq_iff_eq] at h
+    obtain ⟨rfl, rfl⟩ := h
+    simp [lexOne]
+  case textStep =>
+    simp only [spellOK, Bool.and_eq_true, beq_iff_eq, List.isEmpty_iff, bne_iff_ne, ne_eq] at h
+    obtain ⟨⟨rfl, rfl⟩, h⟩ := h
+    simp [lexOne, h]
+  case minus =>
+    simp only [spellOK, Bool.and_eq_true, beq_iff_eq, List.isEmpty_iff, bne_iff_ne, ne_eq] at h
+    obtain ⟨⟨rfl, rfl⟩, h⟩ := h
+    simp [lexOne, h]
+  case lineComment =>
+    simp only [spellOK, Bool.and_eq_true, beq_iff_eq, Bool.or_eq_true, Option.isNone_iff_eq_none] at h
+    obtain ⟨⟨⟨rfl, h1⟩, h2⟩, h3⟩ := h
+    have hh : (r ++ more).head? = some '-' := by
+      cases r with
+      | nil => simp at h1
+      | cons a r => simpa using h1
+    have := lexlaws_takeWhile_append (· ≠ '\n') r more (by simpa using h2)
+      (by rcases h3 with h3 | h3 <;> simp [h3])
+    simp only [lexOne, hh]
+    simp
+    simpa using this
+  case blockComment =>
+    simp only [spellOK, Bool.and_eq_true, beq_iff_eq, Bool.or_eq_true, Option.isNone_iff_eq_none,
+      List.isSuffixOf_iff_suffix] at h
+    obtain ⟨⟨⟨rfl, h1⟩, h2⟩, h3⟩ := h
+    cases r with
+    | nil => simp at h1
+    | cons a r =>
+      simp only [List.head?_cons, Option.some.injEq] at h1
+      subst h1
+      simp only [List.tail_cons] at h2 h3
+      have := blockScan_append r more h2 (by
+        rcases h3 with h3 | h3
+        · exact Or.inl h3
+        · right; cases more <;> simp_all)
+      simp [lexOne, this, Nat.add_comm]
+  case newline =>
+    simp only [spellOK, Bool.and_eq_true, beq_iff_eq, Bool.or_eq_true, List.isEmpty_iff] at h
+    rcases h with ⟨rfl, rfl⟩ | ⟨rfl, rfl⟩ <;> simp [lexOne]
+  case int =>
+    simp only [spellOK, Bool.and_eq_true, Bool.or_eq_true, bne_iff_ne, ne_eq, List.isEmpty_iff,
+      Bool.not_eq_true'] at h
+    obtain ⟨⟨⟨h1, h2⟩, h3⟩, h4⟩ := h
+    have := lexlaws_takeWhile_append isAsciiDigit r more h2 h4
+    rw [lexOne_digit cs _ h1, this]
+    rcases h3 with h3 | rfl
+    · simp [h3]
+    · simp
+  case zeroInt =>
+    simp only [spellOK, Bool.and_eq_true, beq_iff_eq, Bool.not_eq_true', List.isEmpty_eq_false_iff] at h
+    obtain ⟨⟨⟨rfl, h1⟩, h2⟩, h3⟩ := h
+    have := lexlaws_takeWhile_append isAsciiDigit r more h2 h3
+    rw [lexOne_digit cs _ (by decide), this]
+    have : r.length > 0 := List.length_pos_iff.2 h1
+    simp [this]
+  case ws =>
+    simp only [spellOK, Bool.and_eq_true, Bool.not_eq_true'] at h
+    obtain ⟨⟨⟨h1, h2⟩, h3⟩, h4⟩ := h
+    rw [hfall h1, lexlaws_takeWhile_append cs.ws r more h3 h4]
+    simp [h2]
+  case punct =>
+    simp only [spellOK, Bool.and_eq_true, Bool.not_eq_true', List.isEmpty_iff] at h
+    obtain ⟨⟨⟨h1, h2⟩, h3⟩, rfl⟩ := h
+    rw [hfall h1]
+    simp [h2, h3]
+  case word =>
+    simp only [spellOK, Bool.and_eq_true, Bool.not_eq_true'] at h
+    obtain ⟨⟨⟨⟨h1, h2⟩, h3⟩, h4⟩, h5⟩ := h
+    rw [hfall h1, lexlaws_takeWhile_append cs.wordChar r more h4 h5]
+    simp [h2, h3]
+  all_goals
+    simp only [spellOK, Bool.and_eq_true, beq_iff_eq, List.isEmpty_iff] at h
+    obtain ⟨rfl, h⟩ := h
+    simpa using lexOne_single cs more h
+
+theorem spellOK_nonempty {cs : CharSpec} {k : TK} {text : List Char} {next : Option Char}
+    (h : spellOK cs k text next = true) : text ≠ [] := by
+  intro h0; subst h0; simp [spellOK] at h
+
+theorem lexFrom_render_cons (cs : CharSpec) (off : Nat) (t : Tok) (ts : List Tok)
+    (h : spellOK cs t.kind t.text (render ts).head? = true) :
+    lexFrom cs off (render (t :: ts)) =
+      ⟨t.kind, t.text, off⟩ :: lexFrom cs (off + utf8Len t.text) (render ts) := by
+  cases ht : t.text with
+  | nil => rw [ht] at h; simp [spellOK] at h
+  | cons c r =>
+    rw [ht] at h
+    have h1 := lexOne_of_spellOK cs t.kind c r (render ts) h
+    have e : render (t :: ts) = c :: (r ++ render ts) := by simp [render, ht]
+    rw [e, lexFrom_cons, h1]
+    simp
+
+/-- the lexer reads a well spelled token list back, token for token (kinds and texts) -/
+theorem lexFrom_render (cs : CharSpec) (off : Nat) (ts : List Tok) (h : WellSpelled cs ts) :
+    (lexFrom cs off (render ts)).map (fun t => (t.kind, t.text)) = ts.map (fun t => (t.kind, t.text)) := by
+  induction ts generalizing off with
+  | nil => simp [render, lexFrom]
+  | cons t ts ih =>
+    simp only [WellSpelled, wellSpelled, Bool.and_eq_true] at h
+    rw [lexFrom_render_cons cs off t ts h.1]
+    simp only [List.map_cons]
+    rw [ih _ h.2]
+
+/-- … and with the positions too, when the list carries contiguous positions from `off` -/
+theorem lexFrom_render_chain (cs : CharSpec) (off : Nat) (ts : List Tok) (h : WellSpelled cs ts)
+    (hc : Chain off ts) : lexFrom cs off (render ts) = ts := by
+  induction ts generalizing off with
+  | nil => simp [render, lexFrom]
+  | cons t ts ih =>
+    simp only [WellSpelled, wellSpelled, Bool.and_eq_true] at h
+    obtain ⟨hs, hc'⟩ := hc
+    rw [lexFrom_render_cons cs off t ts h.1]
+    have : off + utf8Len t.text = t.stop := by simp [Tok.stop, hs]
+    rw [this, ih _ h.2 hc']
+    cases t
+    simp_all
+
 end Cook
